@@ -1,9 +1,9 @@
 #!/venv/bin/python
 """Re-run the quick check against every kept seeded change of the given properties and record the result
 in seeded/<id>-mK/meta.json under 'check_result' (the first-round result is kept as 'check_result_first_round')."""
-import json, subprocess, sys
+import json, os, subprocess, sys
 from pathlib import Path
-V = Path("/verif")
+V = Path(os.environ.get("VERIF_DIR", "/verif"))
 for pid in sys.argv[1:]:
     for d in sorted((V / "seeded").glob(f"{pid}-*m[0-9]")):
         out = subprocess.run([str(V / "tools/try_patch.sh"), str(d / "patch.diff"), pid], capture_output=True, text=True).stdout
